@@ -14,6 +14,13 @@ func scenarios(c *vlib.Ctx) []*slib.Scn {
 	var out []*slib.Scn
 	add := func(p modules.C05Params, bound int) {
 		out = append(out, &slib.Scn{Scenario: modules.VerifC05(p), Family: "c05/" + p.Graph + "/" + p.Trigger, Bound: bound})
+		if len(p.Items) <= 1 || p.Items[0] == "task-late" {
+			// second default scheduler (youngest enabled thread first) for the single-item drivers
+			sc := modules.VerifC05(p)
+			sc.Name += "/sched=high"
+			sc.HighFirst = true
+			out = append(out, &slib.Scn{Scenario: sc, Family: "c05/" + p.Graph + "/" + p.Trigger, Bound: bound})
+		}
 	}
 	bound := vlib.Pick(c, 2, 3)
 	for _, trig := range []string{"shutdown", "disable"} {
@@ -44,6 +51,16 @@ func scenarios(c *vlib.Ctx) []*slib.Scn {
 			}
 		}
 	}
+	// a task that is queued right before the stop is triggered: it is somewhere between the queue and its execution when the stop begins
+	for _, trig := range []string{"shutdown", "disable"} {
+		for _, graph := range []string{"single", "chain"} {
+			add(modules.C05Params{Graph: graph, Items: []string{"task-late"}, ItemPts: 0, StopFn: "plain", Trigger: trig}, bound)
+			add(modules.C05Params{Graph: graph, Items: []string{"task-late"}, ItemPts: 1, StopFn: "none", Trigger: trig}, bound)
+			for _, k := range []string{"worker", "mt-high", "mt-medium"} {
+				add(modules.C05Params{Graph: graph, Items: []string{"task-late", k}, ItemPts: 0, StopFn: "plain", Trigger: trig}, 2)
+			}
+		}
+	}
 	for _, trig := range []string{"shutdown", "disable"} {
 		add(modules.C05Params{Graph: "xsrc", Items: []string{"xhook"}, ItemPts: 1, StopFn: "plain", Trigger: trig}, bound)
 		add(modules.C05Params{Graph: "xsrc", Items: []string{"xhook"}, ItemPts: 0, StopFn: "none", Trigger: trig}, bound)
@@ -55,7 +72,7 @@ func scenarios(c *vlib.Ctx) []*slib.Scn {
 func main() {
 	vlib.Main("C05", "model_checking", func(c *vlib.Ctx) {
 		c.Rule("stateless exploration of all interleavings (preemption bound per scenario) of the real modules+log packages, source-instrumented so that every mutex/atomic/abool/channel/select/go operation is a scheduling point; " +
-			"scenarios = {single module, dependent+dependency} x {Shutdown, Disable+ManageModules} x work item multisets (<=2 of worker, service worker, task, high/medium/low/signalled microtask, event hook) x stop routine variants; " +
+			"scenarios = {single module, dependent+dependency} x {Shutdown, Disable+ManageModules} x work item multisets (<=2 of worker, service worker, task, high/medium/low/signalled microtask, event hook; plus a worker started at prep time, a service worker in its back-off, a task queued right before the stop) x stop routine variants; single-item drivers under both default schedulers; " +
 			"distinct_nontrivial = distinct observation traces (event order + virtual times) per scenario")
 		c.Assume("sequential consistency; data-race freedom outside the instrumented synchronisation operations; RWMutex modelled without writer preference; time is virtual and advances only when no thread can run")
 		slib.Run(c, scenarios(c), slib.Opts{})
